@@ -35,7 +35,7 @@ ASSUMPTIONS = ['UPGRADE = any packet of type 5; probe = text frame "2probe"',
 REQUIRED = ['trace_automaton', 'transport_samples', 'retrievable_after_failure',
             'later_upgrade_succeeds', 'second_upgrade_refused',
             'ws_only_mode', 'disallowed_transport',
-            'cells_under_random_schedules']
+            'cells_under_random_schedules', 'no_driver_refusals']
 SHARD_TIMEOUT = {'quick': 400, 'thorough': 3000}
 
 MAXB = 1000
@@ -360,6 +360,55 @@ def _run(rec, sim, R, V, f1, f2, cl, conc, au, tr, srv):
               ws3.accepted, ws3.texts(), ws3.ticket.exc))
 
 
+def run_nodriver(rec, spec):
+    """The deployment has no WebSocket driver (_async['websocket'] is None):
+    an upgrade request for a live polling session is refused and must leave
+    the session on polling with everything queued retrievable."""
+    srv, when = spec['srv'], spec['when']
+    case = {'nodriver': dict(spec)}
+    rec.evaluations += 1
+    rec.count('no_driver_refusals')
+    rec.key('nodriver/%s/%s' % (srv, when))
+    sim = scen.make_sim(srv, websocket_available=False)
+    R = hist.Runner(sim)
+
+    def V(key, msg):
+        rec.viol(key, msg + ' | NO-WEBSOCKET-DRIVER server=%s send %s the '
+                 'refused upgrade' % (srv, when), case)
+    try:
+        s = R.open('polling')
+        if not s.accepted:
+            V('open-failed', 'polling open failed')
+            return
+        if when == 'before':
+            R.send(s, 'text')
+            sim.quiesce()
+        for _ in range(2):
+            ws, t = sim.upgrade_ws(s.h)
+            sim.quiesce()
+            if ws.accepted or ws.frames:
+                V('disallowed-transport-used', 'upgrade accepted although no '
+                  'WebSocket driver is available')
+                return
+        if when == 'after':
+            R.send(s, 'text')
+            sim.quiesce()
+        rec.count('retrievable_after_failure')
+        for _ in range(4):
+            tk = R.poll(s)
+            sim.quiesce()
+            if not tk.done:
+                break
+        got = [d['id'] for d in R.deliveries if d['s'] == s.n]
+        if got != ['M0.1'] or sim.transport_of(s.sid) != 'polling':
+            V('queued-message-lost-after-failed-upgrade', 'after the refused '
+              'upgrade request polling returned %r (transport %r, session '
+              'state %r)' % (got, sim.transport_of(s.sid),
+                             sim.snapshot().get(s.sid)))
+    finally:
+        sim.teardown()
+
+
 def plan(tier, seed):
     rng = gen.mkrng('c06', seed)
     dims = [len(FRAMES), len(FRAMES), len(CLOSE_AT), 2, len(CONC), 2, 3, 2]
@@ -380,12 +429,17 @@ def plan(tier, seed):
         chosen += [c + (seed * 100 + k,) for c in extra]
     rng.shuffle(chosen)
     n = 16
-    return [{'cells': chosen[i::n], 'all': tier == 'thorough'}
-            for i in range(n)]
+    shards = [{'cells': chosen[i::n], 'all': tier == 'thorough'}
+              for i in range(n)]
+    shards[0]['nodriver'] = [{'srv': x, 'when': w} for x in SRV
+                             for w in ('before', 'after')]
+    return shards
 
 
 def run_shard(spec):
     rec = Rec()
+    for nd in spec.get('nodriver', []):
+        scen.run_cases(rec, [nd], run_nodriver)
     scen.run_cases(rec, [tuple(c) for c in spec['cells']], run_cell)
     if spec.get('all'):
         rec.extra['exhaustive'] = True
@@ -394,5 +448,8 @@ def run_shard(spec):
 
 def replay(case):
     rec = Rec()
+    if 'nodriver' in case:
+        run_nodriver(rec, case['nodriver'])
+        return rec.violations
     run_cell(rec, tuple(case['cell']))
     return rec.violations
